@@ -98,6 +98,14 @@ def container(c, case):
         fc = fem.FieldsMixed(region, n=3, planestrain=True)
     elif c == "M3AX":
         fc = fem.FieldsMixed(region, n=3, axisymmetric=True)
+        if case["seed"] % 2 == 1 and not uniform:
+            # the dual (p, J) field objects were used before in a container on a radially moved mesh of the same topology (an
+            # earlier analysis) and are taken over together with a new displacement field: weights follow the current radius
+            far = mesh.copy()
+            far.update(points=np.asarray(mesh.points) + np.array([0.0, 0.8]))
+            prev = fem.FieldsMixed(gm.region(far, info), n=3, axisymmetric=True)
+            fem.IntegralForm([np.ones((3, 3, 1, 1)), np.ones((1, 1, 1)), np.ones((1, 1, 1))], prev, prev.region.dV).assemble()
+            fc = fem.FieldContainer([fem.FieldAxisymmetric(region, dim=2), prev[1], prev[2]])
     return mesh, info, region, fc, uniform
 
 
@@ -363,9 +371,15 @@ def ex_check(name, case, rec):
         cmp(name + ("(sym=True)" if use_sym else ""), wf.assemble(fc, fc, parallel=par, sym=use_sym), K)
         # the same form object handed other fields (same topology, sheared and stretched points): "may be updated during
         # integration / assembly"
+        # the same form object with new keyword arguments only (no fields handed over again)
+        A3 = rng.standard_normal(A.shape)
+        if name == "bilinear-sym":
+            A3 = A3 + np.transpose(A3, (2, 3, 0, 1, 4, 5))
+        K3 = fem.IntegralForm([A3], fc, region.dV, fc).assemble()
+        cmp(name + "@new-kwargs-only", wf.assemble(kwargs={"A": A3}, parallel=par, sym=use_sym), K3)
         fc2, region2 = other_fields(fem, mesh, info, rng, ps)
         K2 = fem.IntegralForm([A], fc2, region2.dV, fc2).assemble()
-        cmp(name + "@other-fields", wf.assemble(v=fc2, u=fc2, parallel=par, sym=use_sym), K2)
+        cmp(name + "@other-fields", wf.assemble(v=fc2, u=fc2, kwargs={"A": A}, parallel=par, sym=use_sym), K2)
     elif name == "bilinear-hh":
         # second gradients of the basis (regions created with hess=True): a(v, u) = w hess(v) ::: hess(u), against the explicit
         # sum over cells, quadrature points and shape functions built from the region's d2h/dXdX
@@ -424,6 +438,10 @@ def ex_check(name, case, rec):
 
             L = fem.IntegralForm([P], fc, region.dV, grad_v=[False]).assemble()
         cmp(name, lf.assemble(fc, parallel=par), L)
+        P3 = rng.standard_normal(P.shape)
+        L3 = fem.IntegralForm([P3], fc, region.dV, grad_v=[name == "linear-g"]).assemble()
+        cmp(name + "@new-kwargs-only", lf.assemble(kwargs={"P": P3}, parallel=par), L3)
+        lf.assemble(kwargs={"P": P})
         fc2, region2 = other_fields(fem, mesh, info, rng, False)
         L2 = fem.IntegralForm([P], fc2, region2.dV, grad_v=[name == "linear-g"]).assemble()
         cmp(name + "@other-fields", lf.assemble(v=fc2, parallel=par), L2)
